@@ -140,36 +140,34 @@ func matchStatement(cur Statement, node ipld.Node) (_ matchResult, leafMost Stat
 		}
 	case KindAnd:
 		if s, ok := cur.(connective); ok {
+			// A false statement decides the conjunction whatever its position; otherwise
+			// missing data does; the result doesn't depend on the order of the statements.
+			var acc accumulator
 			for _, cs := range s.statements {
 				res, leaf := matchStatement(cs, node)
-				switch res {
-				case matchResultNoData, matchResultOptionalNoData:
-					return res, leaf
-				case matchResultTrue:
-					// continue
-				case matchResultFalse:
+				if res == matchResultFalse {
 					return matchResultFalse, leaf
 				}
+				acc.add(res, leaf)
 			}
-			return matchResultTrue, nil
+			return acc.conjunction()
 		}
 	case KindOr:
 		if s, ok := cur.(connective); ok {
 			if len(s.statements) == 0 {
 				return matchResultTrue, nil
 			}
+			// A true statement decides the disjunction whatever its position; otherwise
+			// missing data does; the result doesn't depend on the order of the statements.
+			var acc accumulator
 			for _, cs := range s.statements {
 				res, leaf := matchStatement(cs, node)
-				switch res {
-				case matchResultNoData, matchResultOptionalNoData:
-					return res, leaf
-				case matchResultTrue:
+				if res == matchResultTrue {
 					return matchResultTrue, leaf
-				case matchResultFalse:
-					// continue
 				}
+				acc.add(res, leaf)
 			}
-			return matchResultFalse, cur
+			return acc.disjunction(cur)
 		}
 	case KindLike:
 		if s, ok := cur.(wildcard); ok {
@@ -199,22 +197,20 @@ func matchStatement(cur Statement, node ipld.Node) (_ matchResult, leafMost Stat
 			if it == nil {
 				return matchResultFalse, cur // not a list
 			}
+			// same order-independent accumulation as for and/or, over the elements
+			var acc accumulator
 			for !it.Done() {
 				_, v, err := it.Next()
 				if err != nil {
 					panic("should never happen")
 				}
 				matchRes, leaf := matchStatement(s.statement, v)
-				switch matchRes {
-				case matchResultNoData, matchResultOptionalNoData:
-					return matchRes, leaf
-				case matchResultTrue:
-					// continue
-				case matchResultFalse:
+				if matchRes == matchResultFalse {
 					return matchResultFalse, leaf
 				}
+				acc.add(matchRes, leaf)
 			}
-			return matchResultTrue, nil
+			return acc.conjunction()
 		}
 	case KindAny:
 		if s, ok := cur.(quantifier); ok {
@@ -229,25 +225,69 @@ func matchStatement(cur Statement, node ipld.Node) (_ matchResult, leafMost Stat
 			if it == nil {
 				return matchResultFalse, cur // not a list
 			}
+			// same order-independent accumulation as for and/or, over the elements
+			var acc accumulator
 			for !it.Done() {
 				_, v, err := it.Next()
 				if err != nil {
 					panic("should never happen")
 				}
 				matchRes, leaf := matchStatement(s.statement, v)
-				switch matchRes {
-				case matchResultNoData, matchResultOptionalNoData:
-					return matchRes, leaf
-				case matchResultTrue:
+				if matchRes == matchResultTrue {
 					return matchResultTrue, nil
-				case matchResultFalse:
-					// continue
 				}
+				acc.add(matchRes, leaf)
 			}
-			return matchResultFalse, cur
+			return acc.disjunction(cur)
 		}
 	}
 	panic(fmt.Errorf("unimplemented statement kind: %s", cur.Kind()))
+}
+
+// accumulator collects the results of the statements of a connective (or of the
+// elements of a quantifier) that did not decide it on their own, so that the
+// outcome doesn't depend on the order in which they are visited.
+type accumulator struct {
+	seen       int // number of results collected
+	optional   int // number of matchResultOptionalNoData among them
+	noData     bool
+	noDataLeaf Statement
+}
+
+func (a *accumulator) add(res matchResult, leaf Statement) {
+	a.seen++
+	switch res {
+	case matchResultOptionalNoData:
+		a.optional++
+	case matchResultNoData:
+		if !a.noData {
+			a.noData, a.noDataLeaf = true, leaf
+		}
+	}
+}
+
+// conjunction is the result of an and/all none of whose statements is false.
+func (a *accumulator) conjunction() (matchResult, Statement) {
+	switch {
+	case a.noData:
+		return matchResultNoData, a.noDataLeaf
+	case a.seen > 0 && a.optional == a.seen:
+		return matchResultOptionalNoData, nil
+	default:
+		return matchResultTrue, nil
+	}
+}
+
+// disjunction is the result of an or/any none of whose statements is true.
+func (a *accumulator) disjunction(cur Statement) (matchResult, Statement) {
+	switch {
+	case a.optional > 0:
+		return matchResultOptionalNoData, nil
+	case a.noData:
+		return matchResultNoData, a.noDataLeaf
+	default:
+		return matchResultFalse, cur
+	}
 }
 
 // isOrdered compares two IPLD nodes and returns true if they satisfy the given ordering function.
